@@ -375,6 +375,10 @@ pub(super) fn execute_order_by<'a, S: GraphSnapshot + 'a>(
         if let Err(err) = params.check_timeout("OrderBy.collect") {
             return PlanIterator::Dynamic(Box::new(std::iter::once(Err(err))));
         }
+        // An upstream error has no sort key; report it instead of sorting it among the rows.
+        if let Err(err) = item {
+            return PlanIterator::Dynamic(Box::new(std::iter::once(Err(err))));
+        }
         rows.push(item);
         if let Err(err) = params.check_collection_size("OrderBy.collect", rows.len()) {
             return PlanIterator::Dynamic(Box::new(std::iter::once(Err(err))));
@@ -405,6 +409,12 @@ pub(super) fn execute_order_by<'a, S: GraphSnapshot + 'a>(
             Err(_) => (row, vec![]),
         })
         .collect();
+
+    // A sort key that fails to evaluate fails the query.
+    if let Some(pos) = sortable.iter().position(|(row, _)| row.is_err()) {
+        let (row, _) = sortable.swap_remove(pos);
+        return PlanIterator::Dynamic(Box::new(std::iter::once(row)));
+    }
 
     sortable.sort_by(|a, b| {
         for ((val_a, dir_a), (val_b, _)) in a.1.iter().zip(b.1.iter()) {
